@@ -159,6 +159,36 @@ def big_domain_laws(acc):
     return fails
 
 
+def dtype_cases(acc):
+    """record values stored in narrow integer dtypes (pandas category codes are int8): the flat cell index of a 396-cell
+    domain does not fit the dtype of the values"""
+    import pandas as pd
+    from mbi import Dataset, Domain
+    attrs, shape = ['p', 'q', 'r'], [11, 12, 3]
+    dom = Domain(attrs, shape)
+    recs = [(10, 11, 2), (10, 11, 2), (9, 0, 1), (0, 11, 0), (5, 6, 1), (10, 0, 2), (3, 3, 0), (10, 11, 0)]
+    w = np.array([0.5, 2.0, 1.0, 3.0, 0.25, 1.5, 2.0, 1.0])
+    fails = []
+    for dt in ['int64', 'int32', 'int16', 'uint16', 'int8', 'uint8', 'category-codes']:
+        for weights in (None, w):
+            arr = np.array(recs)
+            if dt == 'category-codes':
+                df = pd.DataFrame({a: pd.Categorical(arr[:, i], categories=range(shape[i])).codes for i, a in enumerate(attrs)})
+            else:
+                df = pd.DataFrame(arr.astype(dt), columns=attrs)
+            ds = Dataset(df, dom, None if weights is None else weights.copy())
+            acc.evals += 1
+            acc.case({'dtype': dt, 'weighted': weights is not None})
+            for t in [tuple(attrs), ('r', 'p', 'q'), ('q', 'p'), ('p',)]:
+                ref = count_table(attrs, shape, recs, weights, t)
+                got = ds.project(list(t)).datavector(flatten=False)
+                if got.shape != ref.shape or not O.close(got, ref, 1e-12, 0):
+                    fails.append('dtype %s%s: project(%r).datavector() differs from the counted table (sum %r vs %r)' % (
+                        dt, ' weighted' if weights is not None else '', t, float(np.sum(got)), float(ref.sum())))
+                    break
+    return fails
+
+
 def domain_laws(acc, dn):
     from mbi import Domain
     attrs, shape = DOMAINS[dn]
@@ -213,7 +243,7 @@ def run_job(job):
     acc = Acc()
     dn = job['dom']
     if job.get('laws'):
-        fails = domain_laws(acc, dn) + (big_domain_laws(acc) if dn == 'BA' else [])
+        fails = domain_laws(acc, dn) + (big_domain_laws(acc) + dtype_cases(acc) if dn == 'BA' else [])
         if fails:
             acc.violate({'dom': dn, 'laws': True}, {'kind': 'domain-law', 'law': fails[0].split('(')[0]}, '; '.join(fails[:6]))
         acc.outcome('laws:%s' % ('ok' if not fails else 'FAIL'))
@@ -236,7 +266,7 @@ def run_job(job):
 def replay(case):
     acc = Acc()
     if case.get('laws'):
-        fails = domain_laws(acc, case['dom']) + (big_domain_laws(acc) if case['dom'] == 'BA' else [])
+        fails = domain_laws(acc, case['dom']) + (big_domain_laws(acc) + dtype_cases(acc) if case['dom'] == 'BA' else [])
     else:
         recs = record_sets(DOMAINS[case['dom']][1], case['tier'])[case['idx']]
         fails = dataset_case(acc, case['dom'], recs, case['weights'], case['frame'])
